@@ -26,3 +26,8 @@ let rec leb n m =
   | S n' -> (match m with
              | O -> false
              | S m' -> leb n' m')
+
+(** val ltb : nat -> nat -> bool **)
+
+let ltb n m =
+  leb (S n) m
